@@ -206,6 +206,15 @@ def generate(st):
                         c3 = _copy.deepcopy(c)
                         c3['obj'] = j
                         ops.append(c3)
+        elif r < 0.815 and 'cache' in cfg['decs'] and not retry:
+            extra_ = [d_ for d_ in cfg['decs'] if d_ in ('kws', 'loop', 'pd2np')]
+            stack = [{'t': 'cache'}]
+            if extra_ and g.random() < 0.5:
+                e_ = {'t': g.choice(extra_)}
+                if e_['t'] == 'loop':
+                    e_['types'] = ['list']
+                stack = [e_] + stack if g.random() < 0.5 else stack + [e_]
+            ops.append({'op': 'recursion', 'n': g.choice([3, 5, 8, 12]), 'decs': stack, 'by_pos': g.random() < 0.7})
         elif r < 0.83 and cfg.get('argpool') and cfg['containers']:
             ops.append({'op': 'edit_arg', 'k': g.randrange(3), 'v': g.choice([1, 2, 5, 's'])})
         elif r < 0.86:
@@ -636,6 +645,11 @@ def execute(trace, ctx=None):
                         r = do_call(o, pos2, kw2, k, how=lambda: call_with_callargs(o['real'], got))
                         if r == 'ok':
                             res.probe('call_with_callargs-checked')
+                        # the dict is the caller's: it must come back as it went in, and work a second time
+                        if not _deep_same(_norm_callargs(got), _norm_callargs(want)):
+                            raise Violation('callargs-consumed', 'call_with_callargs altered the callargs dict it was given: now %r, was %r' % (got, want), k)
+                        if r == 'ok':
+                            do_call(o, pos2, kw2, k, how=lambda: call_with_callargs(o['real'], got))
             elif kind == 'edit_arg':
                 # the caller edits one of its own containers between calls: a later call with it is a different combination
                 a = argpool[op['k'] % len(argpool)]
@@ -644,6 +658,35 @@ def execute(trace, ctx=None):
                 else:
                     a['e%d' % len(a)] = op['v']
                 res.probe('argument-object-edited-between-calls')
+            elif kind == 'recursion':
+                # a function that calls ITSELF through its cached wrapper (fib style): the memo is being filled while the
+                # outermost call is still running.  n+1 distinct arguments -> n+1 evaluations, none afterwards.
+                evals = []
+                box_ = {}
+
+                def rec(a, b=1):
+                    evals.append(a)
+                    return 0 if a <= 0 else 1 + box_['g'](a - 1) if op.get('by_pos', True) else 1 + box_['g'](a=a - 1)
+                g_ = rec
+                for d_ in reversed(op['decs']):
+                    g_ = build(d_, g_)
+                box_['g'] = g_
+                n_ = op['n']
+                call_ = (lambda a: g_(a)) if op.get('by_pos', True) else (lambda a: g_(a=a))     # one passing style throughout: one key per argument
+                try:
+                    v1 = call_(n_)
+                    c1 = len(evals)
+                    v2 = call_(n_)
+                    v3 = call_(n_ - 1)
+                    c2 = len(evals)
+                except Exception as e:
+                    raise Violation('unexpected-exception', 'recursive cached function raised %s: %s' % (type(e).__name__, str(e)[:200]), k)
+                if v1 != n_ or v2 != n_ or v3 != n_ - 1:
+                    raise Violation('not-transparent', 'recursive cached function returned %r, %r, %r for %d, %d, %d' % (v1, v2, v3, n_, n_, n_ - 1), k)
+                if c1 != n_ + 1 or c2 != c1:
+                    raise Violation('evaluated-more-than-once', 'f calling itself through its cached wrapper: %d evaluations for %d distinct arguments, %d more on repeating the calls'
+                                    % (c1, n_ + 1, c2 - c1), k)
+                res.probe('recursion-through-the-cache')
             elif kind == 'clear':
                 if not (0 <= op['obj'] < len(pool)):
                     continue
@@ -792,7 +835,7 @@ def signature(trace, violation):
 
 PROBES = ['cache-hit', 'cache-hit-after-rewrap', 'multi-keyword-call', 'unhashable-argument', 'fallback-taken', 'retry-then-success',
           'same-decorator-through-chain', 'same-decorator-directly', 'clear_cache', 'argspec-checked', 'getcallargs-checked',
-          'call_with_callargs-checked', 'pd2np-without-first-argument', 'caller-edits-mutable-fallback', 'falsy-result-cached', 'long-lived-argument-object', 'argument-object-edited-between-calls']
+          'call_with_callargs-checked', 'pd2np-without-first-argument', 'caller-edits-mutable-fallback', 'falsy-result-cached', 'long-lived-argument-object', 'argument-object-edited-between-calls', 'recursion-through-the-cache']
 TIERS = {'quick': {'runs': 30000, 'wallcap': 50}, 'thorough': {'runs': 1500000, 'wallcap': 800}}
 COMPONENTS = {
     'real': ['pyg_base._decorators wrapper / try_value / try_back / kwargs_support', 'pyg_base._cache cache_func', 'pyg_base._loop loops (non-container input) / pd2np (non-pandas input)',
